@@ -231,7 +231,8 @@ func (p *Program) VerifyFunc(fi *FuncInfo) (res *FuncResult) {
 		e.specOld = e.old
 		for _, en := range c.Ensures {
 			t := e.evalSpec(post, en)
-			e.Ctx.AddObligation(res.Func, "post", fmt.Sprintf("%s/post/%s", res.Func, en.Label), post.PC, t, en.Line)
+			o := e.Ctx.AddObligation(res.Func, "post", fmt.Sprintf("%s/post/%s", res.Func, en.Label), post.PC, t, en.Line)
+			o.SetParts(e.evalSpecParts(post, en))
 		}
 		for _, en := range c.Aux {
 			t := e.evalSpec(post, en)
